@@ -53,10 +53,10 @@ pub struct Case {
     pub runs: Vec<Perturb>,
 }
 
-struct Delays {
-    seed: u64,
-    overlap: AtomicUsize,
-    active: std::sync::Mutex<std::collections::HashSet<usize>>,
+pub struct Delays {
+    pub seed: u64,
+    pub overlap: AtomicUsize,
+    pub active: std::sync::Mutex<std::collections::HashSet<usize>>,
 }
 
 impl EvalHooks for Delays {
